@@ -503,10 +503,28 @@ Qed.
 Lemma erase_inj : forall v, erase (inj v) = v.
 Proof.
   assert (L : forall l, Forall (fun x => erase (inj x) = x) l -> map erase (map inj l) = l).
-  { intros l F. rewrite map_map. induction F as [|x r Hx _ IH]; simpl; [reflexivity|]. rewrite Hx, IH. reflexivity. }
+  { intros l F. induction F as [|x r Hx _ IH]; simpl; [reflexivity|]. rewrite Hx, IH. reflexivity. }
   assert (K : forall kvs, Forall (fun kv : val * val => erase (inj (fst kv)) = fst kv /\ erase (inj (snd kv)) = snd kv) kvs ->
               map (fun kv => (erase (fst kv), erase (snd kv))) (map (fun kv => (inj (fst kv), inj (snd kv))) kvs) = kvs).
-  { intros kvs F. rewrite map_map. induction F as [|kv r [H1 H2] _ IH]; simpl; [reflexivity|].
+  { intros kvs F. induction F as [|kv r [H1 H2] _ IH]; simpl; [reflexivity|].
     rewrite H1, H2, IH. destruct kv; reflexivity. }
   induction v using val_induction; simpl; try reflexivity; f_equal; try (apply L; assumption); apply K; assumption.
+Qed.
+
+(* host data -> convert_input -> `$` -> convert_output: the result shares no mutable node
+   with the host data (input conversion leaves none, output conversion allocates all) *)
+Theorem dollar_fresh : forall o d n r n',
+  (forall i, In i (cells d) -> i < n) ->
+  co_id o (inj (convert_input (erase d))) n = Ok (r, n') ->
+  cells (inj (convert_input (erase d))) = [] /\
+  NoDup (cells r) /\ (forall i, In i (cells r) -> ~ In i (cells d)) /\
+  convert_output o (convert_input (erase d)) = Ok (erase r).
+Proof.
+  intros o d n r n' B H.
+  assert (Z : cells (inj (convert_input (erase d))) = []) by (apply inj_frozen_cells; apply convert_input_frozen).
+  split; [exact Z|].
+  destruct (co_id_fresh o _ n r n' H) as [N [R _]]; [rewrite Z; intros i []|].
+  split; [exact N|]. split.
+  - intros i Hi Hd. specialize (R i Hi). specialize (B i Hd). lia.
+  - pose proof (co_id_erase o (inj (convert_input (erase d))) n) as E. rewrite H, erase_inj in E. exact E.
 Qed.
